@@ -16,7 +16,7 @@ use crate::internal::{
     schema::{TracingMode, TracingOptions},
 };
 
-use super::tracer::{StructField, StructMode, Tracer};
+use super::tracer::{StructField, StructMode, Tracer, MAX_TYPE_DEPTH, RECURSIVE_TYPE_WARNING};
 
 impl Tracer {
     pub fn from_type<'de, T: Deserialize<'de>>(options: TracingOptions) -> Result<Self> {
@@ -34,7 +34,7 @@ impl Tracer {
                     budget = tracer.get_options().from_type_budget,
                 );
             }
-            let res = T::deserialize(TraceAny(&mut tracer));
+            let res = T::deserialize(TraceAny(&mut tracer, 0));
             if let Err(err) = res {
                 if !is_non_self_describing_error(err.message()) {
                     return Err(err);
@@ -78,7 +78,19 @@ fn is_non_self_describing_error(s: &str) -> bool {
         || s.contains("invalid IP address syntax")
 }
 
-struct TraceAny<'a>(&'a mut Tracer);
+/// The second field counts the `Option` / newtype struct wrappers entered at the current position:
+/// they add no path segment, so the depth limit of the tracer does not see types that recurse through
+/// them only (`struct Node(Option<Box<Node>>)`)
+struct TraceAny<'a>(&'a mut Tracer, usize);
+
+impl TraceAny<'_> {
+    fn enter_transparent(&self) -> Result<usize> {
+        if self.1 >= MAX_TYPE_DEPTH {
+            fail!("{RECURSIVE_TYPE_WARNING}");
+        }
+        Ok(self.1 + 1)
+    }
+}
 
 impl Context for TraceAny<'_> {
     fn annotate(&self, annotations: &mut BTreeMap<String, String>) {
@@ -232,8 +244,9 @@ impl<'de> serde::de::Deserializer<'de> for TraceAny<'_> {
 
     fn deserialize_option<V: Visitor<'de>>(self, visitor: V) -> Result<V::Value> {
         try_(|| {
+            let depth = self.enter_transparent()?;
             self.0.mark_nullable();
-            visitor.visit_some(TraceAny(&mut *self.0))
+            visitor.visit_some(TraceAny(&mut *self.0, depth))
         })
         .ctx(&self)
     }
@@ -263,7 +276,11 @@ impl<'de> serde::de::Deserializer<'de> for TraceAny<'_> {
         _name: &'static str,
         visitor: V,
     ) -> Result<V::Value> {
-        try_(|| visitor.visit_newtype_struct(TraceAny(&mut *self.0))).ctx(&self)
+        try_(|| {
+            let depth = self.enter_transparent()?;
+            visitor.visit_newtype_struct(TraceAny(&mut *self.0, depth))
+        })
+        .ctx(&self)
     }
 
     fn deserialize_seq<V: Visitor<'de>>(self, visitor: V) -> Result<V::Value> {
@@ -299,7 +316,7 @@ impl<'de> serde::de::Deserializer<'de> for TraceAny<'_> {
         len: usize,
         visitor: V,
     ) -> Result<V::Value> {
-        try_(|| TraceAny(&mut *self.0).deserialize_tuple(len, visitor)).ctx(&self)
+        try_(|| TraceAny(&mut *self.0, self.1).deserialize_tuple(len, visitor)).ctx(&self)
     }
 
     fn deserialize_map<V: Visitor<'de>>(self, visitor: V) -> Result<V::Value> {
@@ -382,7 +399,7 @@ impl<'de> serde::de::Deserializer<'de> for TraceAny<'_> {
     }
 
     fn deserialize_identifier<V: Visitor<'de>>(self, visitor: V) -> Result<V::Value> {
-        try_(|| TraceAny(&mut *self.0).deserialize_str(visitor)).ctx(&self)
+        try_(|| TraceAny(&mut *self.0, self.1).deserialize_str(visitor)).ctx(&self)
     }
 
     fn deserialize_ignored_any<V: Visitor<'de>>(self, visitor: V) -> Result<V::Value> {
@@ -405,7 +422,7 @@ impl<'de> serde::de::MapAccess<'de> for TraceMap<'_> {
 
     fn next_key_seed<K: DeserializeSeed<'de>>(&mut self, seed: K) -> Result<Option<K::Value>> {
         if self.active {
-            let key = seed.deserialize(TraceAny(self.key_tracer))?;
+            let key = seed.deserialize(TraceAny(self.key_tracer, 0))?;
             Ok(Some(key))
         } else {
             Ok(None)
@@ -414,7 +431,7 @@ impl<'de> serde::de::MapAccess<'de> for TraceMap<'_> {
 
     fn next_value_seed<V: DeserializeSeed<'de>>(&mut self, seed: V) -> Result<V::Value> {
         self.active = false;
-        seed.deserialize(TraceAny(self.value_tracer))
+        seed.deserialize(TraceAny(self.value_tracer, 0))
     }
 }
 
@@ -431,7 +448,7 @@ impl<'de> serde::de::SeqAccess<'de> for TraceTupleStruct<'_> {
             return Ok(None);
         }
 
-        let item = seed.deserialize(TraceAny(&mut self.tracers[self.pos]))?;
+        let item = seed.deserialize(TraceAny(&mut self.tracers[self.pos], 0))?;
         self.pos += 1;
 
         Ok(Some(item))
@@ -459,7 +476,7 @@ impl<'de> serde::de::MapAccess<'de> for TraceStruct<'_> {
     }
 
     fn next_value_seed<V: DeserializeSeed<'de>>(&mut self, seed: V) -> Result<V::Value> {
-        let value = seed.deserialize(TraceAny(&mut self.fields[self.pos].tracer))?;
+        let value = seed.deserialize(TraceAny(&mut self.fields[self.pos].tracer, 0))?;
         self.pos += 1;
 
         Ok(value)
@@ -481,7 +498,7 @@ impl<'de, 'a> serde::de::EnumAccess<'de> for TraceEnum<'a> {
             idx: self.pos,
             name: self.variant,
         })?;
-        Ok((variant, TraceAny(self.tracer)))
+        Ok((variant, TraceAny(self.tracer, 0)))
     }
 }
 
@@ -517,7 +534,7 @@ impl<'de> serde::de::SeqAccess<'de> for TraceSeq<'_> {
     fn next_element_seed<T: DeserializeSeed<'de>>(&mut self, seed: T) -> Result<Option<T::Value>> {
         if self.1 {
             self.1 = false;
-            let item = seed.deserialize(TraceAny(self.0))?;
+            let item = seed.deserialize(TraceAny(self.0, 0))?;
             Ok(Some(item))
         } else {
             Ok(None)
